@@ -238,3 +238,29 @@ fn value_sub_undoes_add_2x2() {
         }
     }
 }
+
+// ---- C09: language views (cost-model part of the script-integrity preimage) ------------------------------------------------------
+// Every subset of {PlutusV1, PlutusV2, PlutusV3} (symbolic presence: complete), with fixed two-entry cost models (bounded in content):
+// the bytes must be the ledger's canonical map: shorter keys first (01, 02 before 41 00), V1's key and value double-encoded as byte
+// strings with an indefinite inner array, V2/V3 as plain uint key and definite array.
+#[kani::proof]
+#[kani::stub(alloc::fmt::format, stub_format)]
+#[kani::unwind(12)]
+fn language_views_canonical_all_subsets() {
+    let p1: bool = kani::any();
+    let p2: bool = kani::any();
+    let p3: bool = kani::any();
+    let mut cm = CostModel::new();
+    cm.0 = vec![Int::new_i32(1), Int::new_i32(2)];
+    let mut c = Costmdls::new();
+    if p3 { c.0.insert(Language::new_plutus_v3(), cm.clone()); }
+    if p1 { c.0.insert(Language::new_plutus_v1(), cm.clone()); }
+    if p2 { c.0.insert(Language::new_plutus_v2(), cm.clone()); }
+    let got = c.language_views_encoding();
+    let n = (p1 as u8) + (p2 as u8) + (p3 as u8);
+    let mut exp: Vec<u8> = vec![0xa0 + n];
+    if p2 { exp.extend_from_slice(&[0x01, 0x82, 0x01, 0x02]); }
+    if p3 { exp.extend_from_slice(&[0x02, 0x82, 0x01, 0x02]); }
+    if p1 { exp.extend_from_slice(&[0x41, 0x00, 0x44, 0x9f, 0x01, 0x02, 0xff]); }
+    assert!(got == exp);
+}
